@@ -164,12 +164,27 @@ type Role struct {
 }
 
 type Ws struct {
-	Name     string   `json:"name"`
-	Abstract bool     `json:"abstract,omitempty"`
-	Inh      []QRef   `json:"inh,omitempty"`
-	Desc     *[]Field `json:"desc,omitempty"`
-	Items    []WsItem `json:"items"`
+	Name     string      `json:"name"`
+	Abstract bool        `json:"abstract,omitempty"`
+	Inh      []QRef      `json:"inh,omitempty"`
+	Desc     *[]DescItem `json:"desc,omitempty"`
+	Items    []WsItem    `json:"items"`
 }
+
+// DescItem: a member of a workspace descriptor - a plain field (the embedded Field, same JSON as before) or a
+// reference field
+type DescItem struct {
+	Field
+	Ref *RefF `json:"ref,omitempty"`
+}
+
+func (d DescItem) MemberName() string {
+	if d.Ref != nil {
+		return d.Ref.Name
+	}
+	return d.Name
+}
+
 type Pkg struct {
 	Name  string `json:"name"`
 	Files [][]Ws `json:"files"`
@@ -497,7 +512,11 @@ func rWs(w Ws) string {
 	if w.Desc != nil {
 		fs := []string{}
 		for _, f := range *w.Desc {
-			fs = append(fs, rField(f))
+			if f.Ref != nil {
+				fs = append(fs, f.Ref.Name+" "+rRefs(f.Ref.Refs)+rNN(f.Ref.NotNull))
+			} else {
+				fs = append(fs, rField(f.Field))
+			}
 		}
 		s += "  DESCRIPTOR " + rParen(fs) + ";\n"
 	}
